@@ -349,4 +349,9 @@ theorem tie_sources :
     Jap.Gen.SubcmdShape.parseArgsParseCommonKw = Shape.parseArgsParseCommonKw ∧
     Jap.Gen.SubcmdShape.envBranch = Shape.envBranch := ⟨rfl, rfl, rfl, rfl, rfl, rfl, rfl⟩
 
+/-- `default_env` reaches every level: the setter recurses through the property on each sub-parser (and `add_subcommand`
+    copies the parent's value, `tie_argv_and_links`), so the single `mode` of the model is the mode of every parser -/
+theorem tie_default_env_uniform :
+    Jap.Gen.SubcmdShape.defaultEnvPropagation = Shape.defaultEnvPropagation := rfl
+
 end Jap.Props.C17
